@@ -43,6 +43,10 @@ Definition update_lastmod (l : list (bytes * Z)) (url : bytes) (hdr : option Z) 
   | None => l
   | Some t => if t >? lastmod l url then set_lastmod l url t else l
   end.
+(* a batch of announced stamps applied in the given order; the largest of a batch *)
+Definition apply_stamps (l : list (bytes * Z)) (url : bytes) (ts : list Z) : list (bytes * Z) :=
+  fold_left (fun acc t => update_lastmod acc url (Some t)) ts l.
+Definition max_stamp (v0 : Z) (ts : list Z) : Z := fold_left Z.max ts v0.
 
 Record rq := mkRq { rq_id : Z; rq_class : Z; rq_type : Z; rq_name : bytes }.
 
